@@ -27,7 +27,7 @@ from ..loader import ClassInfo
 from ..paths import normal_only
 from ..report import Check
 from ..strdom import BoolV, Interp, NoneV, ObjV
-from .c03 import SESSION, _conn_nodes, _verify_nodes, _wait_nodes, connecting_functions, run_samples
+from .c03 import SESSION, _conn_nodes, _verify_nodes, _wait_nodes, connecting_functions, run_samples, tofu_guard_edges, tofu_object
 
 EXPLANATION = (
     "Static necessary conditions of C11. asyncio runs connection_made inside "
@@ -113,11 +113,13 @@ def rule_f1(chk: Check):
                     idx = params.index(param)
                     v = c.args[idx] if len(c.args) > idx else None
                 interp = Interp(chk.proj, fi)
-                interp.oracle = {"self.tofu_db": ObjV("db"), "self.trust_on_first_use": BoolV(True)}
+                dbv, special = tofu_object(chk)
+                interp.oracle = {"self.tofu_db": dbv, "self.trust_on_first_use": BoolV(True)}
                 val = interp.eval(v, {}) if v is not None else BoolV(True)  # default True = send at connect
                 ok = isinstance(val, BoolV) and val.value is False
                 if not ok:
-                    chk.finding("F1", fi.key, f"not-deferred:{cname}", f"{cname} is constructed with {param}={norm(v) if v is not None else '<default True>'}, which is not false when a TOFU database is configured: the request is sent during connection set-up, before verification", fi.loc(c))
+                    extra = f" (TOFUDatabase defines {'/'.join(special)}, so a configured but empty store is falsy: `{norm(v)}` is then true while verification is still performed)" if special and v is not None else ""
+                    chk.finding("F1", fi.key, f"not-deferred:{cname}", f"{cname} is constructed with {param}={norm(v) if v is not None else '<default True>'}, which is not provably false whenever a TOFU database is configured{extra}: the request is sent during connection set-up, before verification", fi.loc(c))
                 chk.ob("F1", f"{fi.key}: {cname}({param}={norm(v) if v is not None else 'default'}) is false under TOFU", ok)
     chk.require("F1", "client.session", "protocol construction sites", n_sites, 2, "the session no longer constructs both client protocols")
     return info
@@ -135,8 +137,7 @@ def rule_f2(chk: Check, info) -> None:
         if not chk.require("F2", fi.key, "deferred send call", len(sends), 1, "the session never triggers the deferred send: with TOFU active no request would ever be sent (or it is sent at connect time)"):
             continue
         conn, ver, waits = _conn_nodes(g), _verify_nodes(g), _wait_nodes(g)
-        tests = [n for n in g.nodes if n.kind == "test" and dotted(n.ast) == "self.tofu_db"]
-        blocked_e = {(t.id, b, lab) for t in tests for b, lab in g.succ[t.id] if lab == "F"}
+        blocked_e, _nt = tofu_guard_edges(g, active=False)
         for v in ver:
             for b, lab in g.succ[v.id]:
                 if lab is None:
@@ -148,7 +149,7 @@ def rule_f2(chk: Check, info) -> None:
         if early:
             chk.finding("F2", fi.key, "send-before-verify", "with TOFU active the request can be sent on a path that has not passed certificate verification", early[0].where(), g.fmt_path(g.path_to(par, early[0].id)))
         # on TOFU paths the send precedes the wait
-        blocked_e2 = {(t.id, b, lab) for t in tests for b, lab in g.succ[t.id] if lab == "F"}
+        blocked_e2, _nt2 = tofu_guard_edges(g, active=False)
         par2 = g.reach(starts, blocked_nodes={s.id for s in sends}, blocked_edges=blocked_e2, follow=normal_only)
         unsent = [w for w in waits if w.id in par2]
         if unsent:
